@@ -114,7 +114,8 @@ func (evt *throwEvent) NextAction(ctx context.Context, flow Flow) chan IAction {
 		go evt.run(ctx, sender)
 	})
 
-	response := make(chan IAction)
+	// one reply per channel: buffered, so that the node loop never waits for a token that left on ctx.Done
+	response := make(chan IAction, 1)
 	evt.mch <- nextActionMessage{response: response, flow: flow}
 	return response
 }
